@@ -191,6 +191,62 @@ def h_id_counters(g):
     g.check(AND(f[0].id != f[1].id, f[1].id != f[2].id, f[0].id != f[2].id), "feature ids are distinct for every prior counter value")
 
 
+def run_samples(g, samples, strategy, base_mi, base_me):
+    """the real DatasetProcessor.process_sample for a sequence of experiments (one processor object, as isoquant.py uses
+    it); collect_reads / load_read_info / process_assigned_reads are fakes that feed and record the per-sample state"""
+    this = dp.DatasetProcessor.__new__(dp.DatasetProcessor)
+    this.args = Obj(read_group=None, resume=False, read_assignments=None, keep_tmp=True, gunzipped_reference=None,
+                    polya_requirement_strategy=strategy, require_monointronic_polya=base_mi, require_monoexonic_polya=base_me,
+                    polya_percentage_threshold=0.7, low_polya_percentage_threshold=0.1)
+    this.all_read_groups = set()
+    this.alignment_stat_counter = dp.EnumStats()
+    seen = []
+    cur = {}
+
+    def fake_collect(sample):
+        this.alignment_stat_counter.add(dp.AlignmentType.unaligned, sample.unmapped)
+
+    def fake_load(saves):
+        return cur["s"].total, cur["s"].polya, {"NA"}
+
+    def fake_process(sample, saves):
+        seen.append((this.args.requires_polya_for_construction, this.args.require_monointronic_polya, this.args.require_monoexonic_polya,
+                     this.alignment_stat_counter.stats_dict[dp.AlignmentType.unaligned]))
+    this.collect_reads, this.load_read_info, this.process_assigned_reads = fake_collect, fake_load, fake_process
+    saved = (dp.prepare_read_groups,)
+    dp.prepare_read_groups = lambda a, s_: None
+    try:
+        for smp in samples:
+            cur["s"] = smp
+            call(g, this.process_sample, smp)
+    finally:
+        dp.prepare_read_groups = saved[0]
+    return seen
+
+
+def h_sample_independence(g):
+    """what process_sample hands to the processing of experiment B does not depend on an experiment A processed before"""
+    d = os.path.join(scratch(), "samples")
+    os.makedirs(d, exist_ok=True)
+    strategy = list(dp.PolyAUsageStrategies)[g.choice("polya_requirement", len(list(dp.PolyAUsageStrategies)))]
+    base_mi, base_me = bool(g.bool("preset_require_monointronic_polya")), bool(g.bool("preset_require_monoexonic_polya"))
+
+    def mk(name):
+        t = g.int(name + "_total_assignments", 0, 1000)
+        p = g.int(name + "_polya_assignments", 0, 1000)
+        g.add(p <= t)
+        return Obj(prefix=name, file_list=[["x.bam"]], read_group_file=os.path.join(d, name + ".rg"), out_raw_file=os.path.join(d, name + ".save"),
+                   total=t, polya=p, unmapped=g.int(name + "_unmapped_reads", 0, 1000))
+    a, b = mk("A"), mk("B")
+    both = run_samples(g, [a, b], strategy, base_mi, base_me)
+    alone = run_samples(g, [b], strategy, base_mi, base_me)
+    x, y = both[1], alone[0]
+    g.check(AND(IFF(x[0], y[0]), IFF(x[1], y[1]), IFF(x[2], y[2])),
+            "polyA requirements applied to an experiment do not depend on the experiment processed before it",
+            detail={"after_A": [str(v) for v in x[:3]], "alone": [str(v) for v in y[:3]]})
+    g.check(x[3] == y[3], "the number of unaligned reads reported for an experiment does not include the previous experiment's")
+
+
 def instances(tier, seed):
     q = tier == "quick"
     G = "src.graph_based_model_construction:GraphBasedModelConstructor."
@@ -200,6 +256,10 @@ def instances(tier, seed):
            Instance("known_isoform_reported", h_known_isoform_reported, [G + "construct_fl_isoforms"], "symbolic read count, same locus twice", weight=20),
            Instance("id_counters", h_id_counters, ["src.isoform_assignment:ReadAssignment.__init__", "src.gene_info:FeatureInfo.__init__",
                                                    "src.id_policy:SimpleIDDistributor.increment"], "symbolic prior counter values", weight=5)]
+    out.append(Instance("sample_independence", h_sample_independence, ["src.dataset_processor:DatasetProcessor.process_sample",
+                                                                     "src.dataset_processor:set_polya_requirement_strategy"],
+                        "two experiments with symbolic assignment totals, polyA counts and unmapped reads; every --polya_requirement and preset flag",
+                        weight=40, budget_s=900))
     for n in ((2,) if q else (2, 3)):
         out.append(Instance("duplicate_counter[n=%d]" % n, h_duplicate_counter(n), ["src.multimap_resolver:MultimapResolver.find_duplicates",
                                                                                    "src.multimap_resolver:MultimapResolver.resolve"],
